@@ -63,6 +63,19 @@ let run_case kind args (res : string list) : string * bool * bool =
         | ["panic"] -> p_C12 (O_fromstr (s, None))
         | toks -> let (p, _) = parse_optn toks in p_C12 (O_fromstr (s, Some p))) in
     (optn_line r, ok, s <> [])
+  | "U", [h] ->
+    (* fastrace-macro unescape_format_string: model result, and the scan specification *)
+    let s = str_of_hexbytes h in
+    let (t, f) = unescape s in
+    let m = hexbytes_of_str t ^ " " ^ (if f then "1" else "0") in
+    let ok = (match res, scan s with
+        | ["panic"], _ -> false
+        | [t'; f'], Lit u -> str_of_hexbytes t' = u && f' = "0"
+        | [t'; f'], Open -> str_of_hexbytes t' = s && f' = "1"
+        | [_; _], Close -> true      (* format!() rejects the string: nothing is claimed *)
+        | _ -> false) in
+    (m, ok, List.length s > 1)
+  | "X", _ -> ("function-present", false, false)
   | _ -> ("unknown-case", false, false)
 
 let split_ws s = List.filter (fun x -> x <> "") (String.split_on_char ' ' s)
